@@ -94,7 +94,7 @@ fn parse<'input>(
 
     parse_xml_node_children(
         xml.root(),
-        xml.root(),
+        &mut Vec::new(),
         doc.root().id,
         &style_sheet,
         false,
@@ -145,7 +145,7 @@ pub(crate) fn parse_tag_name(node: roxmltree::Node) -> Option<EId> {
 
 fn parse_xml_node_children<'input>(
     parent: roxmltree::Node<'_, 'input>,
-    origin: roxmltree::Node,
+    origin: &mut Vec<roxmltree::NodeId>,
     parent_id: NodeId,
     style_sheet: &simplecss::StyleSheet,
     ignore_ids: bool,
@@ -171,7 +171,7 @@ fn parse_xml_node_children<'input>(
 
 fn parse_xml_node<'input>(
     node: roxmltree::Node<'_, 'input>,
-    origin: roxmltree::Node,
+    origin: &mut Vec<roxmltree::NodeId>,
     parent_id: NodeId,
     style_sheet: &simplecss::StyleSheet,
     ignore_ids: bool,
@@ -547,7 +547,7 @@ fn resolve_href<'a, 'input: 'a>(
 
 fn parse_svg_use_element<'input>(
     node: roxmltree::Node<'_, 'input>,
-    origin: roxmltree::Node,
+    origin: &mut Vec<roxmltree::NodeId>,
     parent_id: NodeId,
     style_sheet: &simplecss::StyleSheet,
     depth: u32,
@@ -559,7 +559,9 @@ fn parse_svg_use_element<'input>(
         None => return Ok(()),
     };
 
-    if link == node || link == origin {
+    // `origin` contains all `use` elements that are being resolved right now, their parents
+    // and the elements they are linked to. Linking any of them would lead to an endless loop.
+    if link == node || origin.contains(&link.id()) {
         log::warn!(
             "Recursive 'use' detected. '{}' will be skipped.",
             node.attribute((SVG_NS, "id")).unwrap_or_default()
@@ -611,16 +613,21 @@ fn parse_svg_use_element<'input>(
         return Ok(());
     }
 
-    parse_xml_node(
+    let origin_len = origin.len();
+    origin.extend(node.ancestors().map(|n| n.id()));
+    origin.push(link.id());
+    let result = parse_xml_node(
         link,
-        node,
+        origin,
         parent_id,
         style_sheet,
         true,
         depth + 1,
         doc,
         id_map,
-    )
+    );
+    origin.truncate(origin_len);
+    result
 }
 
 fn resolve_css<'a>(
